@@ -362,6 +362,7 @@ def body_view(case):
     if abs(h - v / 15.0) > 2 * S.ULP * abs(v / 15.0):
         raise Violation("Angle(%r).get_ra() = %r, value/15 = %r" % (v, h, v / 15.0), site="Angle.get_ra", kind="view")
     b = Angle(a)
+    b.rad(), b.get_ra()         # views taken before the in-place change must not stick to it
     ret = b.to_positive()
     if ret is not b:
         raise Violation("to_positive() did not return the object itself", site="Angle.to_positive", kind="view")
@@ -373,6 +374,14 @@ def body_view(case):
     if abs(d) > TOL:
         raise Violation("Angle(%r).to_positive() = %r is not congruent" % (v, p),
                         site="Angle.to_positive", kind="congruence")
+    rp = b.rad()
+    wantp = p * math.pi / 180.0
+    if abs(rp - wantp) > 4 * S.ULP * abs(wantp) + 5e-324:
+        raise Violation("Angle(%r): after to_positive() the value is %r but rad() = %r (value*pi/180 = %r)"
+                        % (v, p, rp, wantp), site="Angle.rad", kind="view_after_to_positive")
+    if abs(b.get_ra() - p / 15.0) > 2 * S.ULP * abs(p / 15.0):
+        raise Violation("Angle(%r): after to_positive() the value is %r but get_ra() = %r"
+                        % (v, p, b.get_ra()), site="Angle.get_ra", kind="view_after_to_positive")
     if a() != v:
         raise Violation("copy shares state: to_positive on the copy changed the source",
                         site="Angle.set", kind="copy_shares_state")
